@@ -8,9 +8,12 @@ order - bounded by the capacity `N = MESSAGE_BUF_SIZE` of the user's output buff
 
 Reference semantics
   * a write of text `d` owes the client `expand d` (every LF as CR LF), appended to `q` item by item (an item is one byte, or
-    the pair CR LF standing for one LF) as long as the item fits into the capacity; room made by a later send() during the
-    same write is filled at once.  What has still not fitted when the write returns is the *lost tail*: by construction a
-    tail is lost only when the buffer is full (or the connection is dead), never a middle part, never half of a CR LF.
+    the pair CR LF standing for one LF) as long as the item fits into the capacity.  When the next item does not fit, the
+    implementation has to try to send.  Room made by that attempt is filled with more of the text as soon as the attempt is
+    over (the queue is drained, or the socket refuses more).  The rest of the text may be given up only if the attempt was
+    refused outright: the buffer is full and send() answered EWOULDBLOCK / EINTR without having taken a single byte.  So a
+    tail is lost only when the buffer is full and the socket takes nothing (or the connection is dead), never a middle
+    part, never half of a CR LF.
   * the bytes accepted by a send() must be exactly the head of `q` (in order, exactly once, nothing else, nothing twice);
     EWOULDBLOCK / EINTR change nothing; any other error closes the connection.
   * after a close (send error, remove_interactive, peer EOF) nothing may be sent.
@@ -45,6 +48,8 @@ structure J where
   /-- inside a write: the part of the text not yet taken into `q` -/
   cur : Option (List Byte) := none
   dead : Bool := false
+  /-- a send() of the current attempt has taken bytes (cleared whenever the text is refilled) -/
+  progress : Bool := false
   /-- violations, newest first -/
   bad : List String := []
 
@@ -56,10 +61,18 @@ def refill (j : J) : J :=
   | none => j
   | some d =>
     let r := fit (N - j.q.length) d
-    { j with q := j.q ++ r.1, cur := some r.2 }
+    { j with q := j.q ++ r.1, cur := some r.2, progress := false }
+
+/-- send() answered EWOULDBLOCK / EINTR: the attempt is over -/
+def refused (j : J) : J :=
+  match j.cur with
+  | some (_ :: _) =>
+    -- room was made: more text is taken; nothing was taken from a full buffer: the rest of the text is given up
+    if j.progress then refill j else { j with cur := some [] }
+  | _ => { j with progress := false }
 
 def jstep (j : J) : Ev → J
-  | .wbeg _ d => if j.dead then { j with cur := some d } else refill { j with cur := some d }
+  | .wbeg _ d => if j.dead then { j with cur := some d } else refill { j with cur := some d, progress := false }
   | .wend => { j with cur := none }
   | .send off res acc =>
     if j.dead then j.flag "send-after-close"
@@ -68,10 +81,13 @@ def jstep (j : J) : Ev → J
       match res with
       | .acc =>
         let j := if acc.isEmpty || off < acc.length then j.flag "bad-accept" else j
-        if acc.isPrefixOf j.q then refill { j with q := j.q.drop acc.length }
+        if acc.isPrefixOf j.q then
+          let q' := j.q.drop acc.length
+          -- drained: the attempt is over and there is room for more of the text
+          if q'.isEmpty then refill { j with q := q' } else { j with q := q', progress := true }
         else j.flag "delivered-mismatch"
-      | .wouldBlock => j
-      | .intr => j
+      | .wouldBlock => refused j
+      | .intr => refused j
       | .pipe => { j with dead := true }
       | .err _ => { j with dead := true }
   | .close => { j with dead := true }
